@@ -412,6 +412,8 @@ def run(ctx):
                     else:
                         okn = (kind(en) == 'binop' and en[1] == '+' and
                                en[2] == C(spec.ERR_PY_PREFIX)) or \
+                            (kind(en) == 'fstr' and len(en[1]) == 2 and
+                             en[1][0] == C(spec.ERR_PY_PREFIX)) or \
                             (kind(en) == 'attr' and
                              en[2] == 'dbusErrorName')
                         ctx.ob('C10.D4', nf.qualname, 'error-name-source',
